@@ -15,6 +15,7 @@
 package main
 
 import (
+	"crypto/sha256"
 	"encoding/hex"
 	"encoding/json"
 	"flag"
@@ -489,9 +490,6 @@ func actions(cdc codec.Codec, thorough bool) []action {
 
 	// ---- CompassHandover: each forward call (address, payload), deadline, relayer, gas estimate
 	fcAddrs, fcPayloads := addrs[:3], payloads[:3]
-	if !thorough {
-		fcAddrs, fcPayloads = addrs[:2], payloads[:3]
-	}
 	nElem := len(fcAddrs) * len(fcPayloads)
 	fseq := seqs(nElem, 0, 3)
 	acts = append(acts, action{
@@ -828,7 +826,8 @@ func (e *idEnv) realHash(n *explore.Node) string {
 			sb.WriteString(hex.EncodeToString(it.Value()))
 		}
 	}
-	return sb.String()
+	h := sha256.Sum256([]byte(sb.String()))
+	return string(h[:20])
 }
 
 const queueStorePrefix = "consensus-queue-signing-type--"
